@@ -213,7 +213,14 @@ func initGlobalVariables(variables []compiler.Global, init map[string]any) []ref
 					panic(fmt.Sprintf("variable initializer %q cannot be nil", variable.Name))
 				}
 				val := reflect.ValueOf(value)
-				if typ := val.Type(); typ == variable.Type {
+				typ := val.Type()
+				// A variable of interface type accepts any value assignable to it,
+				// except a pointer to the variable's type that is handled below.
+				if variable.Type.Kind() == reflect.Interface && typ != variable.Type &&
+					!(typ.Kind() == reflect.Pointer && typ.Elem() == variable.Type) && typ.AssignableTo(variable.Type) {
+					typ = variable.Type
+				}
+				if typ == variable.Type {
 					v := reflect.New(typ).Elem()
 					v.Set(val)
 					values[i] = v
